@@ -173,7 +173,13 @@ def _strategies() -> Any:
                 if t == "defs":
                     stmt = {"t": "defs", "n": draw(st.one_of(st.integers(0, MAX_DEFS), st.sampled_from([0, 1, 16])))}
                 elif t == "defm":
-                    stmt = {"t": "defm", "s": draw(st.text(alphabet=STR_ALPHABET, min_size=0, max_size=12))}
+                    body = draw(st.text(alphabet=STR_ALPHABET, min_size=0, max_size=12))
+                    if draw(st.integers(0, 3)) == 0:
+                        # complete two-character backslash sequences (the grammar's string token allows escapes)
+                        pieces = draw(st.lists(st.sampled_from(["\\n", "\\t", '\\"', "\\\\", "A", "z", "0", " "]),
+                                               min_size=1, max_size=6))
+                        body = body[:6] + "".join(pieces)
+                    stmt = {"t": "defm", "s": body}
                 else:
                     stmt = {"t": t, "args": [None] * draw(st.integers(1, 4))}
             ln = {"label": new_label() if draw(pct) < 80 else None, "stmt": stmt}
